@@ -246,7 +246,7 @@ class ScriptedApp:
         status = sc.get("status", "200 OK")
         headers = list(sc.get("headers", ()))
         if sc.get("cl") is not None:
-            headers.append(("Content-Length", str(sc["cl"])))
+            headers.append((sc.get("cl_name", "Content-Length"), str(sc["cl"])))
         chunks = list(sc.get("chunks", ()))
         kind = sc.get("kind", "list")
 
@@ -281,6 +281,16 @@ class ScriptedApp:
             if sc.get("has_close", True):
                 return ClosableIter(self, key, iter(()))
             return []
+        if kind == "write+file":
+            w = do_sr()
+            w(chunks[0] if chunks else b"")
+            k.log("app", key[0], key[1], "wrote", 0)
+            data = b"".join(chunks[1:])
+            f = SeekableFile(data, self, key)
+            rec["file"] = f
+            rec["returned"] = True
+            self._finish(rec)
+            return environ["wsgi.file_wrapper"](f, sc.get("block_size", 32768))
         if kind in ("file", "ufile"):
             do_sr()
             data = b"".join(chunks)
